@@ -280,6 +280,17 @@ def write_one(p: dict, site: dict, t: dict, prior) -> tuple[dict, dict]:
     return rec, meta
 
 
+def pct_plain_equivalent(p: dict, t: dict):
+    """The plain-integer spelling of the number a whole-percent form "N%" denotes, by the standard's reading of the union: the chart
+    schema's percent unions (gap width, overlap, bubble scale, label offset, hole size ...) count whole percents in both members;
+    DrawingML's ST_Percentage family counts 1000ths of a percent in its integer member."""
+    if t.get("c") != "form" or t.get("s") != "pct" or not t.get("a"):
+        return None
+    n = int(p["anchors"][t["a"] - 1]["value"]) + t["d"]
+    chart = any(isinstance(x, (tuple, list)) and str(x[0]).endswith("/chart") for x in p["xsd_types"])
+    return str(n * (1 if chart else 1000))
+
+
 def read_one(p: dict, site: dict, t: dict, lex: str, vclass: str) -> tuple[dict, dict]:
     el = make_element(site)
     el.set(clark(site), lex)
@@ -288,7 +299,17 @@ def read_one(p: dict, site: dict, t: dict, lex: str, vclass: str) -> tuple[dict,
         back = repr(getattr(el, site["prop"]))
     except Exception as ex:
         ok, exc = False, type(ex).__name__
-    rec = {"pair": p["id"], "tok": t, "lexValid": lex_valid(p, lex), "readOk": ok, "exc": exc}
+    # a percent form and the plain integer that denotes the same number read as the same value (both forms schema-valid and readable)
+    same = True
+    plain = pct_plain_equivalent(p, t)
+    if ok and plain is not None and lex_valid(p, lex) and lex_valid(p, plain):
+        el2 = make_element(site)
+        el2.set(clark(site), plain)
+        try:
+            same = repr(getattr(el2, site["prop"])) == back
+        except Exception:
+            same = True         # the plain form is judged by its own record (clause C)
+    rec = {"pair": p["id"], "tok": t, "lexValid": lex_valid(p, lex), "readOk": ok, "exc": exc, "sameAsPlain": same}
     meta = {"site": "%s:%s@%s" % (site["pfx"], site["tag"], site["attr"]), "prop": "%s.%s" % (site["cls"], site["prop"]),
             "vclass": vclass, "lex": lex, "read": back if ok else "!" + exc}
     return rec, meta
